@@ -55,6 +55,22 @@ def check(ctx: Ctx) -> None:
 
     # ---------------- R1 / R2 on categorize_amount
     fi = proj.func('classification.categorize_amount')
+    # known-wrong shape: the bucket is chosen by walking the tag *list* and stopping at the first special tag
+    # (the result then depends on the order in which the tags are listed, not on precedence)
+    tags_p = fi.params[1] if len(fi.params) > 1 else 'tags'
+    first_hit = []
+    for n in ast.walk(fi.node):
+        if isinstance(n, ast.Call) and isinstance(n.func, ast.Name) and n.func.id == 'next' and n.args and isinstance(n.args[0], ast.GeneratorExp) \
+                and any(isinstance(x, ast.Name) and x.id == tags_p for g in n.args[0].generators for x in ast.walk(g.iter)):
+            first_hit.append(n)
+        if isinstance(n, ast.For) and any(isinstance(x, ast.Name) and x.id == tags_p for x in ast.walk(n.iter)) \
+                and any(isinstance(x, (ast.Break, ast.Return)) for x in ast.walk(n)):
+            first_hit.append(n)
+    if first_hit:
+        ctx.fail('C06.R2', fi, 'order-dependent', f'`{src(first_hit[0])[:70]}` picks the first special tag in *list order*: a payment tagged [transfer, income] and one tagged [income, transfer] land in '
+                                                   f'different buckets, although the bucket must depend only on which tags are present (precedence income > investment > transfer)', first_hit[0])
+        _analyze(ctx)
+        return
     paths = norm.py_paths(proj, fi)
     ctx.count('paths', len(paths))
     seen_slots = set()
